@@ -133,6 +133,7 @@ theorem no_internal_error_counterexample : ¬ no_internal_error_full := by
     simp at h1; subst h1
     simp [Err.located] at this
 
+
 /-! ### grammar facts (shape of accepted trees; used by C01/C17) -/
 
 /-- `comparison_not_chained`: whatever comparison node `e4` builds (at any nesting depth, for any parser state),
@@ -156,16 +157,15 @@ theorem arithmetic_level_kinds (stmt : P Node) (k : Nat) (st st' : PState) (n : 
     (h : e5 stmt k st = .ok (n, st')) : n.isArith = true ∨ n.isUnary = true ∨ n.isPostfix = true := by
   have := e5_kind stmt k st n st' h
   simp [Node.isE5, Node.isE7] at this
-  tauto
+  rcases this with h | h | h
+  · exact Or.inl h
+  · exact Or.inr (Or.inl h)
+  · exact Or.inr (Or.inr h)
 
-example : errOf "x = a == b == c
-" = some (.parse 1 11) := by decide +kernel
-example : errOf "x = not not a
-" = some (.parse 1 8) := by decide +kernel
+example : errOf "x = a == b == c\n" = some (.parse 1 11) := by decide +kernel
+example : errOf "x = not not a\n" = some (.parse 1 12) := by decide +kernel
 /-- nested ternaries are rejected, also inside parentheses (the `in_ternary` flag is global) -/
-example : errOf "x = a ? b : c ? d : e
-" = some (.parse 1 12) := by decide +kernel
-example : errOf "x = a ? (b ? c : d) : e
-" = some (.parse 1 9) := by decide +kernel
+example : errOf "x = a ? b : c ? d : e\n" = some (.parse 1 12) := by decide +kernel
+example : errOf "x = a ? (b ? c : d) : e\n" = some (.parse 1 9) := by decide +kernel
 
 end MesonModel.Props.C02
